@@ -119,8 +119,18 @@ def gen_cases(rng, tier):
             fields.append((f"f{j}", t, _gen_value(rng, t)))
             if rng.random() < 0.15:
                 noninit.append(f"f{j}")
-        cases.append(_fields_case(fields, quoted, {"kind": "random-class", "noninit": noninit, "spell": rng.randrange(10**6),
-                                                   "alt": rng.random() < 0.3}))
+        spell = rng.randrange(10**6)
+        alt = rng.random() < 0.3
+        noncmp = [f"f{j}" for j in range(nf) if rng.random() < 0.2]     # compare=False fields are type-checked like the others
+        cases.append(_fields_case(fields, quoted, {"kind": "random-class", "noninit": noninit, "spell": spell, "alt": alt,
+                                                   "noncmp": noncmp}))
+        if rng.random() < 0.35:
+            # the same class constructed a second time with other values, after a first construction with the values
+            # above: a verdict must not depend on what an earlier construction of the class was given
+            from ..lib.term import to_text
+            fields2 = [(nm, t, _gen_value(rng, t)) for nm, t, _ in fields]
+            cases.append(_fields_case(fields2, quoted, {"kind": "second-construction", "noninit": noninit, "spell": spell, "alt": alt,
+                                                        "noncmp": noncmp, "prime": {nm: to_text(v) for nm, _, v in fields}}))
     if tier != "quick":
         pool = _pool()
         for t in _exhaustive_types():
@@ -150,11 +160,12 @@ def impl(t, case):
     for name, ty, v in fields:
         ann = P.ty_src(ty, ctx, True if future else False, "top")
         vsrc = P.val_src(v, ctx)
+        cmp_ = ", compare=False" if name in (opts.get("noncmp") or []) else ""
         if name in (opts.get("noninit") or []):
-            lines.append(f"    {name}: {ann} = field(init=False, default_factory=lambda: _DEFAULTS[{name!r}])")
+            lines.append(f"    {name}: {ann} = field(init=False, default_factory=lambda: _DEFAULTS[{name!r}]{cmp_})")
             defaults[name] = vsrc
         else:
-            lines.append(f"    {name}: {ann}")
+            lines.append(f"    {name}: {ann}" + (" = field(compare=False)" if cmp_ else ""))
             vals[name] = vsrc
     # non-default init fields must precede nothing in particular: init=False fields take no part in __init__
     pre = P.PREAMBLE
@@ -171,6 +182,18 @@ def impl(t, case):
         mod.run(("from __future__ import annotations\n" if future else "")
                 + f"@dataclass(frozen=True)\nclass {kname}(ASTNode):\n" + "\n".join(lines or ["    pass"]) + "\n")
         K = getattr(mod.m, kname)
+        if opts.get("prime"):
+            from ..lib.term import from_text
+            old0 = config.RUNTIME_TYPE_CHECK
+            try:
+                config.RUNTIME_TYPE_CHECK = True
+                pk = {k: eval(P.val_src(from_text(v), ctx), mod.m.__dict__) for k, v in opts["prime"].items() if k in vals}
+                try:
+                    K(**pk)
+                except Exception:  # noqa
+                    pass
+            finally:
+                config.RUNTIME_TYPE_CHECK = old0
         built = {}
         obs = {}
         old = config.RUNTIME_TYPE_CHECK
